@@ -190,6 +190,11 @@ def run(ctx):
     # ------------------------------------------------------------------ R07.10 (generic, scoped to this property's anchors)
     sm.rule_named_plumbing(ctx, mir, "C07", "R07.10", floor=87)
 
+    # ------------------------------------------------------------------ R07.11 (= R13.4)
+    # a no-op or insert-only text handler must not change other bytes: text is decoded without BOM handling
+    from .c13 import rule_no_bom_sniffing
+    rule_no_bom_sniffing(ctx, mir, rid="R07.11")
+
     ctx.not_decided += ["that the composition of arbitrary operation scripts equals the reference edit (run-time)"]
     return ("API-to-mutation mapping read from the expanded syntax tree (28 token methods cross-checked as siblings and against the documented table, "
             "9 Element operations), serialisation order of mutated tokens, transfer of element-level end-tag edits, and the emission gate for removed content.")
